@@ -43,6 +43,7 @@ pub mod worterbuch {
     mod h {
         include!("/verif/kani/wb/src/h/util.rs");
         include!("/verif/kani/wb/src/h/c03.rs");
+        include!("/verif/kani/wb/src/h/c08.rs");
         include!("/verif/kani/wb/src/h/probe.rs");
     }
 }
